@@ -361,6 +361,15 @@ func registerHarnessIntrinsics() {
 	reg("vEnvListeners", func(in *Interp, fr *frame, args []Value) (Value, bool) {
 		return Int(len(in.env.items)), true
 	})
+	reg("vEnvListenAddr", func(in *Interp, fr *frame, args []Value) (Value, bool) {
+		// the address the most recent successful net.Listen was given
+		if n := len(in.env.items); n > 0 {
+			if a, ok := in.env.items[n-1].(*Obj).F["addr"].(Str); ok {
+				return a, true
+			}
+		}
+		return CStr(""), true
+	})
 	reg("vEnvListenerOpen", func(in *Interp, fr *frame, args []Value) (Value, bool) {
 		n := 0
 		for _, l := range in.env.items {
